@@ -237,6 +237,55 @@ theorem key_fixed (v : Value) (k : CoseKey) (h : CoseKey.fromValue v = .ok k) : 
   simp only [CoseKey.fromValue, tryAsMap, keyLoop_entries kty kid alg ops biv ps hg hp]
   simp [hres]
 
+/-- what an accepted key satisfies: well-formed typed fields and extras, and any re-ordering of extras that is itself `ParamsGood`
+    is accepted from its emitted entries (the `kty` check after the loop depends only on the typed fields). -/
+theorem key_accepted_good (v : Value) (k : CoseKey) (h : CoseKey.fromValue v = .ok k) :
+    KeyGood k.kty k.alg k.keyOps ∧ ParamsGood k.params ∧
+    ∀ ps', ParamsGood ps' → CoseKey.fromValue (.map (pairsToValue (keyL k.kty k.keyId k.alg k.keyOps k.baseIv ++ ps'))) =
+      .ok ⟨k.kty, k.keyId, k.alg, k.keyOps, k.baseIv, ps'⟩ := by
+  obtain ⟨m, ls, rfl, hls, hnd, ko, hres, _⟩ := Coset.Props.C10.accepted_is_wellformed v k h
+  have hlen : ls.length = (m.map (·.2)).length := by
+    have := Coset.mapRes_length _ _ _ hls; simp [keyLabels] at this ⊢; exact this
+  have hfst : (ls.zip (m.map (·.2))).map (·.1) = ls := by rw [List.map_fst_zip]; omega
+  have hlg : ∀ l ∈ ls, LabelGood l := by
+    intro l hl
+    obtain ⟨kk, _, hkk⟩ := mapRes_mem _ _ _ hls l hl
+    exact Label.fromValue_good kk l hkk
+  obtain ⟨kty, kid, alg, ops, biv, ps⟩ := k
+  obtain ⟨T, K, A, O, B, P⟩ := ko
+  simp only [CoseKey.default, List.nil_append] at T K A O B P hres
+  have hg : KeyGood kty alg ops := by
+    refine ⟨?_, ?_, ?_⟩
+    · cases hl : lookupL (.int 1) (ls.zip (m.map (·.2))) <;> simp only [hl] at T
+      · exact absurd T hres
+      · obtain ⟨t, h1, h2⟩ := T; rw [h2]; exact RegLabel.fromValue_good _ _ _ h1
+    · intro a ha
+      cases hl : lookupL (.int 3) (ls.zip (m.map (·.2))) <;> simp only [hl] at A
+      · rw [A] at ha; cases ha
+      · obtain ⟨a', h1, h2⟩ := A
+        rw [h2] at ha; cases ha
+        exact RegLabelPriv.fromValue_good _ _ _ h1
+    · cases hl : lookupL (.int 4) (ls.zip (m.map (·.2))) <;> simp only [hl] at O
+      · rw [O]; exact ⟨by simp [Asc], by simp⟩
+      · obtain ⟨a, s, _, h2, _, h4⟩ := O
+        rw [h4]
+        exact keyOpsLoop_asc a [] s h2 (by simp [Asc]) (by simp)
+  have hp : ParamsGood ps := by
+    rw [P]
+    have hsub : List.Sublist (((ls.zip (m.map (·.2))).filter (fun p => p.1 ∉ keyLabels5)).map (·.1)) ls := by
+      have := (List.filter_sublist (l := ls.zip (m.map (·.2))) (p := fun p => decide (p.1 ∉ keyLabels5))).map (·.1)
+      rw [hfst] at this; exact this
+    refine ⟨List.Nodup.sublist hsub hnd, ?_, fun l hl => hlg l (hsub.subset hl)⟩
+    intro l hl
+    simp only [List.mem_map, List.mem_filter] at hl
+    obtain ⟨p, ⟨_, hp⟩, rfl⟩ := hl
+    simpa using hp
+  refine ⟨hg, hp, ?_⟩
+  intro ps' hp'
+  simp only [CoseKey.fromValue, tryAsMap, keyLoop_entries kty kid alg ops biv ps' hg hp']
+  simp [hres]
+
+
 theorem keyset_fixed (v : Value) (ks : List CoseKey) (h : CoseKeySet.fromValue v = .ok ks) :
     ∃ x, CoseKeySet.toValue ks = .ok x ∧ CoseKeySet.fromValue x = .ok ks := by
   obtain ⟨a, rfl, ha⟩ := (Coset.Props.C10.keyset_iff v ks).mp h
